@@ -53,76 +53,87 @@ theorem strided_nil {s e c : Nat} (h : e ≤ s) (hc : 0 < c) : strided s e c = [
   have : ¬ s + k * c < e := by omega
   simp [this]
 
-/-! ### sorted cells -/
+/-! ### block bounds: no assumption on the cells -/
 
-def Srt (L : List Cell) : Prop := L.Pairwise (fun a b => a.1 + a.2 ≤ b.1)
-
-theorem minStart_sorted : ∀ (cs : List Cell) (c : Cell), Srt (c :: cs) → minStart (c :: cs) = some c.1 := by
-  intro cs
-  induction cs with
-  | nil => intro c _; simp [minStart]
-  | cons d ds ih =>
-    intro c h
-    have h' := List.pairwise_cons.mp h
-    have hd := ih d h'.2
-    have hcd := h'.1 d (by simp)
-    show (match minStart (d :: ds) with | none => some c.1 | some m => some (min c.1 m)) = _
-    rw [hd]
-    show some (min c.1 d.1) = _
-    congr 1
-    omega
-
-theorem head_le_sorted {c : Cell} {cs : List Cell} (h : Srt (c :: cs)) : ∀ x ∈ c :: cs, c.1 ≤ x.1 := by
-  intro x hx
-  rcases List.mem_cons.mp hx with rfl | hx
-  · exact Nat.le_refl _
-  · have := (List.pairwise_cons.mp h).1 x hx; omega
-
-theorem pickEnd_sorted : ∀ (cs : List Cell) (c : Cell), Srt (c :: cs) →
-    ∃ d, pickEnd (c :: cs) = some d ∧ d ∈ c :: cs ∧ ∀ x ∈ c :: cs, x.1 + x.2 ≤ d.1 + d.2 := by
-  intro cs
-  induction cs with
-  | nil => intro c _; exact ⟨c, by simp [pickEnd], by simp, fun x hx => by simp at hx; subst hx; exact Nat.le_refl _⟩
-  | cons c' cs ih =>
-    intro c h
-    have h' := List.pairwise_cons.mp h
-    obtain ⟨d, hd, hdm, hdall⟩ := ih c' h'.2
-    have hcd := h'.1 d hdm
-    refine ⟨d, ?_, List.mem_cons_of_mem _ hdm, ?_⟩
-    · show (match pickEnd (c' :: cs) with | none => some c | some d => if c.1 > d.1 then some c else some d) = _
-      rw [hd]
-      show (if c.1 > d.1 then some c else some d) = _
-      rw [if_neg (by omega)]
-    · intro x hx
+theorem minStart_le : ∀ (L : List Cell) (m : Nat), minStart L = some m → ∀ x ∈ L, m ≤ x.1 := by
+  intro L
+  induction L with
+  | nil => intro m h; simp [minStart] at h
+  | cons c cs ih =>
+    intro m h x hx
+    simp only [minStart] at h
+    cases hcs : minStart cs with
+    | none =>
+      rw [hcs] at h
+      have : cs = [] := by
+        cases cs with
+        | nil => rfl
+        | cons d ds => simp only [minStart] at hcs; cases hd : minStart ds <;> rw [hd] at hcs <;> cases hcs
+      subst this
+      simp at hx; subst hx
+      have := Option.some.inj h; omega
+    | some m' =>
+      rw [hcs] at h
+      have hm := Option.some.inj h
       rcases List.mem_cons.mp hx with rfl | hx
       · omega
-      · exact hdall x hx
+      · have := ih m' hcs x hx; omega
 
-/-- `_load_data` for one table: when the chunk's cells are sorted, every event of the chunk gets
-exactly the rows its cell addresses -/
-theorem loadTable_eq (f : File) (t : Tbl) (s e c : Nat) (hne : strided s e c ≠ [])
-    (hs : Srt ((strided s e c).map (fun i => cell f i t))) :
+theorem maxEnd_ge : ∀ (L : List Cell) (M : Nat), maxEnd L = some M → ∀ x ∈ L, x.1 + x.2 ≤ M := by
+  intro L
+  induction L with
+  | nil => intro m h; simp [maxEnd] at h
+  | cons c cs ih =>
+    intro M h x hx
+    simp only [maxEnd] at h
+    cases hcs : maxEnd cs with
+    | none =>
+      rw [hcs] at h
+      have : cs = [] := by
+        cases cs with
+        | nil => rfl
+        | cons d ds => simp only [maxEnd] at hcs; cases hd : maxEnd ds <;> rw [hd] at hcs <;> cases hcs
+      subst this
+      simp at hx; subst hx
+      have := Option.some.inj h; omega
+    | some m' =>
+      rw [hcs] at h
+      have hm := Option.some.inj h
+      rcases List.mem_cons.mp hx with rfl | hx
+      · omega
+      · have := ih m' hcs x hx; omega
+
+theorem minStart_some (c : Cell) (cs : List Cell) : ∃ m, minStart (c :: cs) = some m := by
+  simp only [minStart]; cases minStart cs <;> exact ⟨_, rfl⟩
+
+theorem maxEnd_some (c : Cell) (cs : List Cell) : ∃ m, maxEnd (c :: cs) = some m := by
+  simp only [maxEnd]; cases maxEnd cs <;> exact ⟨_, rfl⟩
+
+/-- `_load_data` for one table, for ARBITRARY index cells (shared rows, cells pointing back to earlier
+rows, overlapping ranges, zero cells): every event of the chunk gets exactly the rows its cell
+addresses -/
+theorem loadTable_eq (f : File) (t : Tbl) (s e c : Nat) (hne : strided s e c ≠ []) :
     loadTable f t s e c = some ((strided s e c).map (fun i => getEvent f i t)) := by
   unfold loadTable
   show (match minStart ((strided s e c).map (fun i => cell f i t)),
-              pickEnd ((strided s e c).map (fun i => cell f i t)) with
-        | some ts, some c' =>
+              maxEnd ((strided s e c).map (fun i => cell f i t)) with
+        | some ts, some te =>
           some (((strided s e c).map (fun i => cell f i t)).map (fun (sl : Cell) =>
-            ((((f.rows t).drop ts).take (c'.1 + c'.2 - ts)).drop (sl.1 - ts)).take sl.2))
+            ((((f.rows t).drop ts).take (te - ts)).drop (sl.1 - ts)).take sl.2))
         | _, _ => none) = _
   cases hE : strided s e c with
   | nil => exact absurd hE hne
   | cons i0 E =>
-    rw [hE] at hs
-    simp only [List.map_cons] at hs ⊢
-    rw [minStart_sorted _ _ hs]
-    obtain ⟨d, hd, _, hdall⟩ := pickEnd_sorted _ _ hs
-    rw [hd]
+    simp only [List.map_cons]
+    obtain ⟨ts, hts⟩ := minStart_some (cell f i0 t) (E.map (fun i => cell f i t))
+    obtain ⟨te, hte⟩ := maxEnd_some (cell f i0 t) (E.map (fun i => cell f i t))
+    rw [hts, hte]
+    have hlo := minStart_le _ _ hts
+    have hhi := maxEnd_ge _ _ hte
     simp only [Option.some.injEq, List.cons.injEq]
-    have hhead := head_le_sorted hs
     refine ⟨?_, ?_⟩
     · rw [getEvent_eq]
-      exact block_slice _ (Nat.le_refl _) (hdall _ (by simp))
+      exact block_slice _ (hlo _ (by simp)) (hhi _ (by simp))
     · rw [List.map_map]
       apply List.map_congr_left
       intro i hi
@@ -130,18 +141,6 @@ theorem loadTable_eq (f : File) (t : Tbl) (s e c : Nat) (hne : strided s e c ≠
       rw [getEvent_eq]
       have hm : cell f i t ∈ cell f i0 t :: E.map (fun i => cell f i t) :=
         List.mem_cons_of_mem _ (List.mem_map.mpr ⟨i, hi, rfl⟩)
-      exact block_slice _ (hhead _ hm) (hdall _ hm)
-
-/-- the cells of a strided chunk inside the file are sorted -/
-theorem srt_strided {o : Opts} {f : File} (hi : Inv o f) (t : Tbl) {s e c : Nat} (hc : 0 < c)
-    (he : e ≤ f.index.length) : Srt ((strided s e c).map (fun i => cell f i t)) := by
-  unfold Srt strided
-  rw [List.map_map, List.pairwise_map]
-  apply List.Pairwise.imp_of_mem _ List.pairwise_lt_range
-  intro k1 k2 h1 h2 hlt
-  simp only [Function.comp]
-  apply hi.mono
-  · have := Nat.mul_lt_mul_of_pos_right hlt hc; omega
-  · have := (strided_lt_iff hc).mp (List.mem_range.mp h2); omega
+      exact block_slice _ (hlo _ hm) (hhi _ hm)
 
 end H5
